@@ -40,7 +40,8 @@ structure Sc where
   injected  : String := ""            -- teardown mode: what was injected
   abortLost : Bool := false           -- the network dropped an ABORT packet
   shutdownOk : List Nat := []        -- sides whose Shutdown() returned nil
-  lateHashes : List Nat := []        -- payload hashes of writes attempted after shutdown began
+  lateHashes : List Nat := []        -- payload hashes of writes that were rejected (after shutdown began, on a closed stream)
+  badLens   : List Nat := []
   deriving Inhabited
 
 def kvs (toks : List String) : List (String × String) :=
@@ -207,6 +208,11 @@ def checkFin (sc : Sc) (fin : List (String × String)) (leakNames : String) : Li
     for (side, si, m) in sc.reads.toList do
       if sc.lateHashes.contains m.hash && m.len == 33 then
         out := out ++ [s!"[C08,C18] side {side} stream {si}: a write rejected after shutdown began was delivered"]
+  -- rejected writes must stay invisible (C18)
+  if sc.mode == "api" then
+    for (side, si, m) in sc.reads.toList do
+      if sc.lateHashes.contains m.hash && sc.badLens.contains m.len then
+        out := out ++ [s!"[C18] side {side} stream {si}: a rejected write ({m.len} bytes) was delivered"]
   -- reads on streams nobody wrote to
   for (side, si, _) in sc.reads.toList do
     if !(sc.streams.any fun st => st.id == si && st.dir == 1 - side) then
